@@ -20,11 +20,9 @@ func AllStrings(strings []string, predicate func(str string) bool) bool {
 
 // ContainsString returns true if strings contains str
 func ContainsString(strings []string, str string) bool {
-	if str != `` {
-		for _, v := range strings {
-			if v == str {
-				return true
-			}
+	for _, v := range strings {
+		if v == str {
+			return true
 		}
 	}
 	return false
@@ -55,11 +53,9 @@ func IsDecimalInteger(s string) bool {
 
 // MatchesString returns true if at least one of the regexps matches str
 func MatchesString(regexps []*regexp.Regexp, str string) bool {
-	if str != `` {
-		for _, v := range regexps {
-			if v.MatchString(str) {
-				return true
-			}
+	for _, v := range regexps {
+		if v.MatchString(str) {
+			return true
 		}
 	}
 	return false
